@@ -56,6 +56,8 @@ type Request struct {
 	Body    []byte // decompressed
 	RawLen  int
 	Attempt int
+	// Malformed: the declared Content-Length did not match the body (the fake refused it like the real transport)
+	Malformed bool
 }
 
 // HTTPAnswer is what the fake upstream answers to one attempt.
@@ -89,6 +91,12 @@ func (f *FakeRT) RoundTrip(req *http.Request) (*http.Response, error) {
 		}
 	}
 	r := Request{URL: req.URL.String(), Header: req.Header.Clone(), Body: body, RawLen: len(raw), Attempt: len(f.Requests)}
+	if req.ContentLength > 0 && int64(len(raw)) != req.ContentLength {
+		// what net/http's transport does when a request is re-sent with its body already consumed
+		r.Malformed = true
+		f.Requests = append(f.Requests, r)
+		return nil, fmt.Errorf("http: ContentLength=%d with Body length %d", req.ContentLength, len(raw))
+	}
 	f.Requests = append(f.Requests, r)
 	a := HTTPAnswer{Status: 200}
 	if f.Decide != nil {
